@@ -30,9 +30,11 @@ then the old pool re-admitted), and with the canonical state `canon` of a block 
 `walk_canonical`, `walk_invariant`, `walk_confluent` — after a successful walk the tables are those of the canonical
 state of the destination, whatever branch the node came from.
 
-Not proved here: `play` with a non-empty pool and `playForMiner` against the canonical state (they need the
-commutation of independent transactions), pruning walks, and the induction over whole histories; for those the
-correspondence check and the fresh-replica oracle stand (the registry text says what is partial).
+The walk theorems hold for pruning and non-pruning walks alike (the refinement does not look at the irreversible
+height; what a walk does to it is C17). `play_invariant`: `play` with an empty pool keeps the node on the canonical
+state. Not proved here: `play` with a non-empty pool and `playForMiner` against the canonical state (they need the
+commutation of independent transactions), and the induction over whole histories; for those the correspondence
+check and the fresh-replica oracle stand (the registry text says what is partial).
 -/
 namespace XV.C01
 open XV.Chain XV.C02
@@ -857,8 +859,8 @@ theorem replayChain_KVInv (e : Env) (l : List Nat) (r : St) (hv : ChainValid e l
     exact ih _ hv.2 (replayBlock_KVInv e (e.block bi) r (fun i hi => by rw [(hv.1.wf i hi).id]) hinv)
 
 /-- **undoing a block from any state that refines its replay refines the state before the block** -/
-theorem undoBlock_replayBlock (e : Env) (r : St) (b : Block) (hv : BlockValid e r b) (hinv : KVInv e r)
-    (x : St) (hx : TRefines x (replayBlock e r b)) : TRefines (undoBlock e x b false) r := by
+theorem undoBlock_replayBlock (e : Env) (r : St) (b : Block) (prune : Bool) (hv : BlockValid e r b)
+    (hinv : KVInv e r) (x : St) (hx : TRefines x (replayBlock e r b)) : TRefines (undoBlock e x b prune) r := by
   obtain ⟨lh, s2, hfwd⟩ := hv.fwd
   have hx2 : TRefines x s2 := by
     rw [applyBlockTxs_ok_eq e lh b.prop b.txs r s2 hfwd]
@@ -869,9 +871,9 @@ theorem undoBlock_replayBlock (e : Env) (r : St) (b : Block) (hv : BlockValid e 
 
 /-- **the undo loop of `walk` cancels a replayed chain**: if it completes on a state that refines the replay of the
 undone blocks (given newest first, as `undoTodo` lists them) on `r`, the result refines `r` -/
-theorem undoAll_replayChain (e : Env) (undo : List Nat) :
+theorem undoAll_replayChain (e : Env) (prune : Bool) (undo : List Nat) :
     ∀ (r x : St), ChainValid e undo.reverse r → KVInv e r → TRefines x (replayChain e undo.reverse r) →
-      (walk.undoAll e false undo x).2 = true → TRefines (walk.undoAll e false undo x).1 r := by
+      (walk.undoAll e prune undo x).2 = true → TRefines (walk.undoAll e prune undo x).1 r := by
   induction undo with
   | nil => intro r x _ _ hx _; exact hx
   | cons bi rest ih =>
@@ -879,18 +881,19 @@ theorem undoAll_replayChain (e : Env) (undo : List Nat) :
     rw [List.reverse_cons] at hv hx
     obtain ⟨hv1, hv2⟩ := chainValid_snoc e rest.reverse bi r hv
     rw [replayChain_snoc] at hx
-    have hstep := undoBlock_replayBlock e _ (e.block bi) hv2 (replayChain_KVInv e _ r hv1 hinv) x hx
-    have hdef : walk.undoAll e false (bi :: rest) x =
-        if (!false && decide (((e.block bi).height : Int) ≤ x.irrev)) = true then (x, false)
-        else walk.undoAll e false rest (undoBlock e x (e.block bi) false) := by
+    have hstep := undoBlock_replayBlock e _ (e.block bi) prune hv2 (replayChain_KVInv e _ r hv1 hinv) x hx
+    have hdef : walk.undoAll e prune (bi :: rest) x =
+        if (!prune && decide (((e.block bi).height : Int) ≤ x.irrev)) = true then (x, false)
+        else walk.undoAll e prune rest (undoBlock e x (e.block bi) prune) := by
       rw [walk.undoAll]
     rw [hdef] at hok ⊢
-    by_cases hc : ((e.block bi).height : Int) ≤ x.irrev
-    · simp [hc] at hok
-    · simp only [Bool.not_false, Bool.true_and, hc, decide_false, Bool.false_eq_true, ↓reduceIte] at hok ⊢
+    by_cases hc : (!prune && decide (((e.block bi).height : Int) ≤ x.irrev)) = true
+    · rw [if_pos hc] at hok; cases hok
+    · rw [if_neg hc] at hok ⊢
       exact ih r _ hv1 hinv hstep hok
 
-theorem undoAll_pool (e : Env) (l : List Nat) : ∀ (st : St), (walk.undoAll e false l st).1.pool = st.pool := by
+theorem undoAll_pool (e : Env) (prune : Bool) (l : List Nat) :
+    ∀ (st : St), (walk.undoAll e prune l st).1.pool = st.pool := by
   induction l with
   | nil => intro st; rfl
   | cons bi rest ih =>
@@ -913,17 +916,17 @@ theorem replayChain_pool (e : Env) (l : List Nat) (s : St) : (replayChain e l s)
 ancestor, oldest first). If the state refines "`r`, then the blocks of `undo.reverse` replayed, then the pool
 applied" — `r` playing the role of the state at the common ancestor —, the undone branch and the pool satisfy the
 side conditions of the block / transaction theorems (`ChainValid`, `PoolValid`), `r` is well-formed, and the
-non-pruning walk reports success, then the walk's result is: a state `s2` with an empty pool that refines
+walk (pruning or not) reports success, then the walk's result is: a state `s2` with an empty pool that refines
 "`r`, then the blocks of `todo` replayed", followed by the re-admission of the old pool (`doTx`, oldest first).
 In particular (`TRefines`): every UTXO row, the current version of every key and the total after the walk are those
 of a replay of the destination branch from the common ancestor — independent of the branch the node came from. -/
-theorem walk_refines (e : Env) (s : St) (lh : Int) (dest : Nat) (r : St)
-    (hok : (walk e s lh dest false).2 = true) (hinv : KVInv e r)
+theorem walk_refines (e : Env) (s : St) (lh : Int) (dest : Nat) (prune : Bool) (r : St)
+    (hok : (walk e s lh dest prune).2 = true) (hinv : KVInv e r)
     (hchain : ChainValid e (undoTodo e s.pointer dest).1.reverse r)
     (hpool : PoolValid e s.pool (replayChain e (undoTodo e s.pointer dest).1.reverse r))
     (hs : TRefines s (applyPool e s.pool (replayChain e (undoTodo e s.pointer dest).1.reverse r))) :
     ∃ s2, TRefines s2 (replayChain e (undoTodo e s.pointer dest).2 r) ∧ s2.pool = [] ∧
-      (walk e s lh dest false).1 = s.pool.foldl (fun st i => (doTx e st lh i).1) s2 := by
+      (walk e s lh dest prune).1 = s.pool.foldl (fun st i => (doTx e st lh i).1) s2 := by
   have hR := replayChain_KVInv e _ r hchain hinv
   have hroll := rollback_applyPool e s.pool _ hpool hR s hs
   unfold walk at hok ⊢
@@ -934,9 +937,9 @@ theorem walk_refines (e : Env) (s : St) (lh : Int) (dest : Nat) (r : St)
   have hp0 : ({ (s.pool.reverse.foldl (fun st i => undoTx e st (e.tx i)) s) with pool := [] } : St).pool = [] := rfl
   generalize hs0 : ({ (s.pool.reverse.foldl (fun st i => undoTx e st (e.tx i)) s) with pool := [] } : St) = s0
     at h0 hp0 hok ⊢
-  have hu := undoAll_replayChain e (undoTodo e s.pointer dest).1 r s0 hchain hinv h0
-  have hup := undoAll_pool e (undoTodo e s.pointer dest).1 s0
-  generalize hua : walk.undoAll e false (undoTodo e s.pointer dest).1 s0 = ua at hu hup hok ⊢
+  have hu := undoAll_replayChain e prune (undoTodo e s.pointer dest).1 r s0 hchain hinv h0
+  have hup := undoAll_pool e prune (undoTodo e s.pointer dest).1 s0
+  generalize hua : walk.undoAll e prune (undoTodo e s.pointer dest).1 s0 = ua at hu hup hok ⊢
   obtain ⟨s1, ok1⟩ := ua
   simp only at hu hup
   by_cases hok1 : ok1 = true
@@ -955,12 +958,12 @@ theorem walk_refines (e : Env) (s : St) (lh : Int) (dest : Nat) (r : St)
   · simp [hok1] at hok
 
 /-- with an empty pool the walk's result itself refines the replay of the destination branch -/
-theorem walk_refines_nopool (e : Env) (s : St) (lh : Int) (dest : Nat) (r : St)
-    (hok : (walk e s lh dest false).2 = true) (hinv : KVInv e r) (hp : s.pool = [])
+theorem walk_refines_nopool (e : Env) (s : St) (lh : Int) (dest : Nat) (prune : Bool) (r : St)
+    (hok : (walk e s lh dest prune).2 = true) (hinv : KVInv e r) (hp : s.pool = [])
     (hchain : ChainValid e (undoTodo e s.pointer dest).1.reverse r)
     (hs : TRefines s (replayChain e (undoTodo e s.pointer dest).1.reverse r)) :
-    TRefines (walk e s lh dest false).1 (replayChain e (undoTodo e s.pointer dest).2 r) := by
-  obtain ⟨s2, h1, _, h3⟩ := walk_refines e s lh dest r hok hinv hchain
+    TRefines (walk e s lh dest prune).1 (replayChain e (undoTodo e s.pointer dest).2 r) := by
+  obtain ⟨s2, h1, _, h3⟩ := walk_refines e s lh dest prune r hok hinv hchain
     (by rw [hp]; trivial) (by rw [hp]; exact hs)
   rw [h3, hp]
   exact h1
@@ -1038,18 +1041,18 @@ theorem foldl_doTx_trefines (e : Env) (lh : Int) (l : List Nat) (x r : St) (h : 
 /-- **the state after a successful walk is a function of the destination branch and the old pool**: under the
 hypotheses of `walk_refines`, the result refines — and has the pool of — the canonical state "`r`, the blocks of
 `todo` replayed, empty pool" with the old pool re-admitted on it, oldest first -/
-theorem walk_refines_full (e : Env) (s : St) (lh : Int) (dest : Nat) (r : St)
-    (hok : (walk e s lh dest false).2 = true) (hinv : KVInv e r)
+theorem walk_refines_full (e : Env) (s : St) (lh : Int) (dest : Nat) (prune : Bool) (r : St)
+    (hok : (walk e s lh dest prune).2 = true) (hinv : KVInv e r)
     (hchain : ChainValid e (undoTodo e s.pointer dest).1.reverse r)
     (hpool : PoolValid e s.pool (replayChain e (undoTodo e s.pointer dest).1.reverse r))
     (hs : TRefines s (applyPool e s.pool (replayChain e (undoTodo e s.pointer dest).1.reverse r))) :
-    TRefines (walk e s lh dest false).1
+    TRefines (walk e s lh dest prune).1
       (s.pool.foldl (fun st i => (doTx e st lh i).1)
         { replayChain e (undoTodo e s.pointer dest).2 r with pool := [] }) ∧
-    (walk e s lh dest false).1.pool =
+    (walk e s lh dest prune).1.pool =
       (s.pool.foldl (fun st i => (doTx e st lh i).1)
         { replayChain e (undoTodo e s.pointer dest).2 r with pool := [] }).pool := by
-  obtain ⟨s2, h1, h2, h3⟩ := walk_refines e s lh dest r hok hinv hchain hpool hs
+  obtain ⟨s2, h1, h2, h3⟩ := walk_refines e s lh dest prune r hok hinv hchain hpool hs
   rw [h3]
   exact foldl_doTx_trefines e lh s.pool s2 _ (h1.of_tables ⟨rfl, rfl, rfl, rfl⟩ ⟨rfl, rfl, rfl, rfl⟩) h2
 
@@ -1142,38 +1145,39 @@ theorem canon_split (e : Env) (g : St) (cur dest : Nat) (hpl : ParentLower e) :
 Block tree with parent links strictly down in height; `g` a well-formed base state; the chain of the current tip
 satisfies the side conditions of the block theorem (`ChainValid`, from the root), the pool those of the transaction
 theorem (`PoolValid`); the state refines "canonical state of the tip, pool applied". Then after a successful
-non-pruning walk to `dest` the state refines — same UTXO rows, same version of every key, same total, same live key
+walk to `dest` (pruning or not) the state refines — same UTXO rows, same version of every key, same total, same live key
 table — and has the pool of: the canonical state of `dest` (empty pool) with the old pool re-admitted oldest first.
 Nothing of the branch the node came from is left. -/
-theorem walk_canonical (e : Env) (s : St) (lh : Int) (dest : Nat) (g : St) (hpl : ParentLower e)
-    (hok : (walk e s lh dest false).2 = true) (hinv : KVInv e g)
+theorem walk_canonical (e : Env) (s : St) (lh : Int) (dest : Nat) (prune : Bool) (g : St) (hpl : ParentLower e)
+    (hok : (walk e s lh dest prune).2 = true) (hinv : KVInv e g)
     (hchain : ChainValid e (ancestors e (e.blocks.length + 1) s.pointer).reverse g)
     (hpool : PoolValid e s.pool (canon e g s.pointer))
     (hs : TRefines s (applyPool e s.pool (canon e g s.pointer))) :
-    TRefines (walk e s lh dest false).1
+    TRefines (walk e s lh dest prune).1
       (s.pool.foldl (fun st i => (doTx e st lh i).1) { canon e g dest with pool := [] }) ∧
-    (walk e s lh dest false).1.pool =
+    (walk e s lh dest prune).1.pool =
       (s.pool.foldl (fun st i => (doTx e st lh i).1) { canon e g dest with pool := [] }).pool := by
   obtain ⟨pre, h1, h2, h3⟩ := canon_split e g s.pointer dest hpl
   rw [h1] at hchain
   obtain ⟨c1, c2⟩ := chainValid_append e pre _ g hchain
   rw [h2] at hpool hs
   rw [h3]
-  exact walk_refines_full e s lh dest (replayChain e pre g) hok (replayChain_KVInv e pre g c1 hinv) c2 hpool hs
+  exact walk_refines_full e s lh dest prune (replayChain e pre g) hok (replayChain_KVInv e pre g c1 hinv) c2 hpool hs
 
 /-- **the state at a block is a function of its chain**: two nodes — whatever tips they are on and however they got
 there — whose states refine their canonical states and whose pools are empty, after successful walks to the same
 block show the same tables: every UTXO row, the version of every key, the total -/
-theorem walk_confluent (e : Env) (s s' : St) (lh lh' : Int) (dest : Nat) (g : St) (hpl : ParentLower e)
+theorem walk_confluent (e : Env) (s s' : St) (lh lh' : Int) (dest : Nat) (prune prune' : Bool) (g : St)
+    (hpl : ParentLower e)
     (hinv : KVInv e g)
-    (hok : (walk e s lh dest false).2 = true) (hok' : (walk e s' lh' dest false).2 = true)
+    (hok : (walk e s lh dest prune).2 = true) (hok' : (walk e s' lh' dest prune').2 = true)
     (hp : s.pool = []) (hp' : s'.pool = [])
     (hchain : ChainValid e (ancestors e (e.blocks.length + 1) s.pointer).reverse g)
     (hchain' : ChainValid e (ancestors e (e.blocks.length + 1) s'.pointer).reverse g)
     (hs : TRefines s (canon e g s.pointer)) (hs' : TRefines s' (canon e g s'.pointer)) :
-    ObsT (walk e s lh dest false).1 (walk e s' lh' dest false).1 := by
-  have a := (walk_canonical e s lh dest g hpl hok hinv hchain (by rw [hp]; trivial) (by rw [hp]; exact hs)).1
-  have b := (walk_canonical e s' lh' dest g hpl hok' hinv hchain' (by rw [hp']; trivial) (by rw [hp']; exact hs')).1
+    ObsT (walk e s lh dest prune).1 (walk e s' lh' dest prune').1 := by
+  have a := (walk_canonical e s lh dest prune g hpl hok hinv hchain (by rw [hp]; trivial) (by rw [hp]; exact hs)).1
+  have b := (walk_canonical e s' lh' dest prune' g hpl hok' hinv hchain' (by rw [hp']; trivial) (by rw [hp']; exact hs')).1
   rw [hp] at a
   rw [hp'] at b
   exact a.obs.trans b.obs.symm
@@ -1242,20 +1246,20 @@ theorem foldl_doTx_keeps_pool_form (e : Env) (C : St) (lh : Int) (l : List Nat) 
 `walk_canonical`, for a destination known under its id, the state after the walk points at `dest` and refines "the
 canonical state of `dest` with the (new) pool applied in admission order" — the form `walk_canonical` and
 `doTx_keeps_pool_form` start from, so walks and admissions can be chained -/
-theorem walk_invariant (e : Env) (s : St) (lh : Int) (dest : Nat) (g : St) (hpl : ParentLower e)
+theorem walk_invariant (e : Env) (s : St) (lh : Int) (dest : Nat) (prune : Bool) (g : St) (hpl : ParentLower e)
     (hid : (e.block dest).id = dest)
-    (hok : (walk e s lh dest false).2 = true) (hinv : KVInv e g)
+    (hok : (walk e s lh dest prune).2 = true) (hinv : KVInv e g)
     (hchain : ChainValid e (ancestors e (e.blocks.length + 1) s.pointer).reverse g)
     (hpool : PoolValid e s.pool (canon e g s.pointer))
     (hs : TRefines s (applyPool e s.pool (canon e g s.pointer))) :
-    (walk e s lh dest false).1.pointer = dest ∧
-    TRefines (walk e s lh dest false).1 (applyPool e (walk e s lh dest false).1.pool (canon e g dest)) := by
-  refine ⟨walk_reaches e s lh dest hpl hid hok, ?_⟩
+    (walk e s lh dest prune).1.pointer = dest ∧
+    TRefines (walk e s lh dest prune).1 (applyPool e (walk e s lh dest prune).1.pool (canon e g dest)) := by
+  refine ⟨walk_reaches_any e s lh dest prune hpl hid hok, ?_⟩
   obtain ⟨pre, h1, h2, h3⟩ := canon_split e g s.pointer dest hpl
   rw [h1] at hchain
   obtain ⟨c1, c2⟩ := chainValid_append e pre _ g hchain
   rw [h2] at hpool hs
-  obtain ⟨s2, t1, t2, t3⟩ := walk_refines e s lh dest (replayChain e pre g) hok
+  obtain ⟨s2, t1, t2, t3⟩ := walk_refines e s lh dest prune (replayChain e pre g) hok
     (replayChain_KVInv e pre g c1 hinv) c2 hpool hs
   rw [t3, h3]
   apply foldl_doTx_keeps_pool_form
